@@ -56,6 +56,7 @@ fn control_flow(ctx: &Ctx, homes: &(dyn Fn(Kind) -> bool + Sync), rich_entries: 
     st = st.merge(drive(ctx, &Core::new(1, core_hi), &[starts.genesis.clone()], false, homes, &sampler));
     st = st.merge(drive(ctx, &Core::new(1, small_hi), &starts.fixed, false, homes, &sampler));
     st = st.merge(drive(ctx, &Rich::new(1, rich_hi, rich_entries), &all[..ctx.tier.pick(2, all.len())], false, homes, &sampler));
+    st = st.merge(drive(ctx, &Cond::new(1, ctx.tier.pick(5, 6)), &[starts.genesis.clone()], false, homes, &sampler));
     // histories: every state reachable by <= depth small transactions x all small programs
     let reach = reachable_starts(ctx, &starts.genesis, reach_depth, homes, &mut st);
     st = st.merge(drive(ctx, &Core::new(1, reach_hi), &reach, false, homes, &sampler));
@@ -74,12 +75,12 @@ fn control_flow(ctx: &Ctx, homes: &(dyn Fn(Kind) -> bool + Sync), rich_entries: 
 }
 
 pub fn run_c02(ctx: &Ctx) -> i32 {
-    let homes = |k: Kind| matches!(k, Kind::Outcome | Kind::State | Kind::EntryStore | Kind::EntryQuery | Kind::EntryPresence | Kind::Panic);
+    let homes = |k: Kind| matches!(k, Kind::Outcome | Kind::State | Kind::EntryStore | Kind::EntryQuery | Kind::EntryPresence | Kind::ReplyMissingForFailure | Kind::AbsorbedFailure | Kind::Panic);
     control_flow(ctx, &homes, vec!["execute"])
 }
 
 pub fn run_c03(ctx: &Ctx) -> i32 {
-    let homes = |k: Kind| matches!(k, Kind::ReplyPresence | Kind::ReplyArgs | Kind::ReplyEvents | Kind::ReplyData | Kind::EntryPresence | Kind::Panic);
+    let homes = |k: Kind| matches!(k, Kind::ReplyPresence | Kind::ReplyMissingForFailure | Kind::ReplyArgs | Kind::ReplyEvents | Kind::ReplyData | Kind::EntryPresence | Kind::Panic);
     control_flow(ctx, &homes, vec!["execute", "instantiate"])
 }
 
